@@ -8,7 +8,8 @@
 //!           cons  = n | m<min>,<max> | e[<v>,<v>,..]
 //!           texts = - | t[<textid>=<value>,..]
 //!       op = s<name>=<value>  (set_prm)  |  t<name>=<textid>  (set_prm_from_text)
-//!     names / text keys are numeric ids: the strings are "p<id>" / "t<id>".
+//!     names / text keys are numeric ids: the strings are "p<id>" / "t<id>" for id < 1000 and the
+//!     UPPER-CASE variants "P<id-1000>" / "T<id-1000>" for id >= 1000 (distinct names that differ only in letter case).
 //!   result: new=ok:<hex> ; <ok|err:<kind>> <hex> ; ...     (as_bytes() after every call)
 //!           new=err | new=PANIC <loc> | ... ; PANIC <loc>   (sequence stops at a panic)
 //!   WV <dt> <value> <slicehex>     UserPrmDataType::write_value_to_slice on a bare slice
@@ -19,6 +20,34 @@ use gsd_parser::{
 };
 use std::collections::BTreeMap;
 use std::sync::Arc;
+
+/// parameter name of an id: id and id+1000 differ only in ASCII letter case
+fn name_str(id: &str) -> String {
+    let n: u64 = id.parse().expect("name id");
+    if n >= 1000 {
+        format!("P{}", n - 1000)
+    } else {
+        format!("p{}", n)
+    }
+}
+
+/// text key of an id (same convention)
+fn text_str(id: &str) -> String {
+    let n: u64 = id.parse().expect("text id");
+    if n >= 1000 {
+        format!("T{}", n - 1000)
+    } else {
+        format!("t{}", n)
+    }
+}
+
+fn flip_case(id: u32) -> u32 {
+    if id >= 1000 {
+        id - 1000
+    } else {
+        id + 1000
+    }
+}
 
 fn parse_dt(s: &str) -> UserPrmDataType {
     match s {
@@ -59,7 +88,7 @@ fn parse_texts(s: &str) -> Option<Arc<BTreeMap<String, i64>>> {
     for kv in s[1..].split(',').filter(|x| !x.is_empty()) {
         let (k, v) = kv.split_once('=').expect("text");
         // first entry of a key wins (the model's association list)
-        m.entry(format!("t{}", k)).or_insert(v.parse::<i64>().expect("text value"));
+        m.entry(text_str(k)).or_insert(v.parse::<i64>().expect("text value"));
     }
     Some(Arc::new(m))
 }
@@ -79,7 +108,7 @@ fn parse_desc(toks: &[&str]) -> UserPrmData {
             assert!(f.len() == 6, "ref token {t}");
             let off: usize = f[0].parse().expect("ref offset");
             let def = UserPrmDataDefinition {
-                name: format!("p{}", f[1]),
+                name: name_str(f[1]),
                 data_type: parse_dt(f[2]),
                 default_value: f[3].parse().expect("default"),
                 constraint: parse_cons(f[4]),
@@ -136,12 +165,12 @@ pub fn run_case(line: &str) -> String {
             out.push_str(&format!("new=ok:{}", hex(b.as_bytes())));
             for o in ops {
                 let (name, val) = o[1..].split_once('=').expect("op");
-                let name = format!("p{}", name);
+                let name = name_str(name);
                 let kind = &o[..1];
                 let r = guarded(|| {
                     let r = match kind {
                         "s" => b.set_prm(&name, val.parse::<i64>().expect("op value")).map(|_| ()),
-                        "t" => b.set_prm_from_text(&name, &format!("t{}", val)).map(|_| ()),
+                        "t" => b.set_prm_from_text(&name, &text_str(val)).map(|_| ()),
                         _ => panic!("bad op"),
                     };
                     // Display must not panic either (error paths format the error in the tools)
@@ -364,7 +393,11 @@ fn gen_texts(r: &mut Rng, dt: Dt, cons_vals: &[i64]) -> Option<Vec<(u32, i64)>> 
         return None;
     }
     let n = r.below(5) as u32;
-    Some((0..n).map(|k| (k, value_for(r, dt, cons_vals))).collect())
+    Some(
+        (0..n)
+            .map(|k| (if r.chance(1, 6) { flip_case(k) } else { k }, value_for(r, dt, cons_vals)))
+            .collect(),
+    )
 }
 
 fn gen_default(r: &mut Rng, dt: Dt, bad: bool) -> i64 {
@@ -383,10 +416,20 @@ fn gen_default(r: &mut Rng, dt: Dt, bad: bool) -> i64 {
 fn mk_ref(r: &mut Rng, off: usize, name: u32, dt: Dt, bad_default: bool) -> Ref {
     let (cons, cons_vals) = gen_cons(r, dt);
     let texts = gen_texts(r, dt, &cons_vals);
+    let name = if r.chance(1, 6) { flip_case(name) } else { name };
     Ref { off, name, dt, default: gen_default(r, dt, bad_default), cons, cons_vals, texts }
 }
 
-fn gen_ops(r: &mut Rng, refs: &[Ref], n: usize) -> Vec<String> {
+fn gen_ops(r: &mut Rng, refs: &mut [Ref], n: usize) -> Vec<String> {
+    // two references whose names differ only in letter case
+    if refs.len() >= 2 && r.chance(1, 5) {
+        let i = r.below(refs.len() as u64) as usize;
+        let j = r.below(refs.len() as u64) as usize;
+        if i != j {
+            refs[j].name = flip_case(refs[i].name);
+        }
+    }
+    let refs: &[Ref] = refs;
     let mut ops = vec![];
     for _ in 0..n {
         if refs.is_empty() || r.chance(1, 14) {
@@ -403,10 +446,20 @@ fn gen_ops(r: &mut Rng, refs: &[Ref], n: usize) -> Vec<String> {
         if r.chance(if rf.texts.is_some() { 2 } else { 1 }, if rf.texts.is_some() { 5 } else { 12 }) {
             // by text: known ids 0..n-1, sometimes unknown
             let nt = rf.texts.as_ref().map(|t| t.len()).unwrap_or(0) as u64;
-            let id = if nt > 0 && !r.chance(1, 6) { r.below(nt) } else { 50 + r.below(3) };
-            ops.push(format!("t{}={}", rf.name, id));
+            let mut id = if nt > 0 && !r.chance(1, 6) {
+                rf.texts.as_ref().unwrap()[r.below(nt) as usize].0 as u64
+            } else {
+                50 + r.below(3)
+            };
+            if r.chance(1, 7) {
+                id = flip_case(id as u32) as u64; // same text key in the other letter case
+            }
+            let name = if r.chance(1, 7) { flip_case(rf.name) } else { rf.name };
+            ops.push(format!("t{}={}", name, id));
         } else {
-            ops.push(format!("s{}={}", rf.name, value_for(r, rf.dt, &rf.cons_vals)));
+            // the same name in the other letter case: unknown, or the case twin
+            let name = if r.chance(1, 6) { flip_case(rf.name) } else { rf.name };
+            ops.push(format!("s{}={}", name, value_for(r, rf.dt, &rf.cons_vals)));
         }
     }
     ops
@@ -497,9 +550,9 @@ pub fn gen(seed: u64, thorough: bool, out: &mut dyn FnMut(String)) {
             }
         };
         let bad = r.chance(1, 25);
-        let refs = vec![mk_ref(&mut r, off, 1, dt, bad)];
+        let mut refs = vec![mk_ref(&mut r, off, 1, dt, bad)];
         let n = 4 + r.below(8) as usize;
-        let ops = gen_ops(&mut r, &refs, n);
+        let ops = gen_ops(&mut r, &mut refs, n);
         emit(out, &consts, &refs, &ops);
     }
 
@@ -554,7 +607,7 @@ pub fn gen(seed: u64, thorough: bool, out: &mut dyn FnMut(String)) {
             refs[1].name = refs[0].name; // duplicated name: the first reference wins
         }
         let n = 4 + r.below(10) as usize;
-        let ops = gen_ops(&mut r, &refs, n);
+        let ops = gen_ops(&mut r, &mut refs, n);
         emit(out, &consts, &refs, &ops);
     }
 
@@ -577,7 +630,7 @@ pub fn gen(seed: u64, thorough: bool, out: &mut dyn FnMut(String)) {
             refs.push(mk_ref(&mut r, off, name, dt, bad));
         }
         let n = 3 + r.below(12) as usize;
-        let ops = gen_ops(&mut r, &refs, n);
+        let ops = gen_ops(&mut r, &mut refs, n);
         emit(out, &consts, &refs, &ops);
     }
 }
